@@ -11,7 +11,7 @@
 (*          keyLoaded  : none | rsa | ec | other_rsa | other_ec | ed25519   *)
 (*          caFile     : none | ca1 | ca2 | unreadable | garbage            *)
 (*          caLoaded   : none | ca1 | ca2                                   *)
-(*          caPool     : none | ca1 | ca2   (a pool holding that CA)        *)
+(*          caPool     : none | ca1 | ca2 (a pool holding that CA) | empty   *)
 (*          serverName : none | dns | ipv4 | ipv6  (a host name or an IP     *)
 (*                       literal: the override is carried whatever it is)   *)
 (*          insecure, callback, ticketsDisabled, cache : BOOLEAN ]           *)
@@ -24,13 +24,13 @@ KeyFiles    == {"none", "rsa", "ec", "other", "unreadable", "garbage"}
 KeyLoadeds  == {"none", "rsa", "ec", "other_rsa", "other_ec", "ed25519"}
 CAFiles     == {"none", "ca1", "ca2", "unreadable", "garbage"}
 CALoadeds   == {"none", "ca1", "ca2"}
-CAPools     == {"none", "ca1", "ca2"}
+CAPools     == {"none", "ca1", "ca2", "empty"}      \* "empty": a supplied pool holding no certificate (trust nothing)
 CAIds       == {"ca1", "ca2"}
 ServerNames == {"none", "dns", "ipv4", "ipv6"}
 
 TLS12 == 771   \* 0x0303
 
-PoolSet(o) == IF o.caPool = "none" THEN {} ELSE {o.caPool}
+PoolSet(o) == IF o.caPool \in {"none", "empty"} THEN {} ELSE {o.caPool}
 
 ErrCfg(stage) == [err |-> stage, minVersion |-> 0, skipVerify |-> FALSE, serverName |-> "none", system |-> FALSE,
                   roots |-> {}, clientCert |-> "none", callback |-> FALSE, tickets |-> FALSE, cache |-> FALSE]
